@@ -200,6 +200,23 @@ CLAIMED["C13"] = dict(
         "defect repaired in /repo (fix: 7c898a4 5574393 b88e74a 36ce38b and the is_no_input commit).",
    technique="Coq proofs (corollaries of the C05 contract) over the generator model + structure correspondence + jsonschema "
              "reference validator and parser probes on the implementation", design="§8 C13")
+CLAIMED["C15"] = dict(
+   text="Machine-checked proof (Coq), partial: the two helpers of JsonSchemaParser that decide whether a type can be built at all. For "
+        "every combination of minimum / exclusiveMinimum / maximum / exclusiveMaximum the bounds handed to the Rule accept exactly the "
+        "same numbers and are at most one per side (C15_bounds_normalisation_is_exact, C15_bounds_one_per_side); for every list of "
+        "property names (non-identifiers, keywords, names of mapping methods, underscore prefixes, names colliding after sanitising) the "
+        "attribute names of the built class are pairwise distinct and none shadows a reserved name "
+        "(C15_attribute_names_distinct_and_unreserved, C15_renamed_attribute_is_fresh).",
+   note="Trusted: Coq kernel; Model/SchemaParse.v as a description of get_constraints / get_attname / the renaming of parse_object "
+        "(tied by the schema-helpers suite). Partial: that building succeeds for every schema of the fragment and that every value the "
+        "built type returns under strict options validates against the source schema is decided by the schema-oracle suite with the "
+        "jsonschema reference implementation (random schemas with and without explicit type, nested, odd property names). Seven "
+        "defects repaired in /repo (const without type, typeless constraints, bounds together, attribute-name collisions x2, "
+        "additions shadowing methods, to_datetime AttributeError); four open known findings (oneOf vs the exact-class shortcut of ^, "
+        "allOf over different kinds, bool/int equality in enum / const, minProperties counted before unknown keys are dropped), "
+        "each matched by schema feature and validator message. $ref / $defs not covered.",
+   technique="Coq proofs over the bound-normalisation and attribute-naming models + helper correspondence + jsonschema reference "
+             "validator on values returned by the built types", design="§8 C15")
 NOT_YET = {}
 for i in range(1, 21):
     pid = "C%02d" % i
